@@ -176,6 +176,8 @@ class Program:
         for m in self.modules.values():
             for c in m.classes.values():
                 c.bases = [self.resolve_class(m, b) or self._base_name(m, b) for b in c.node.bases]
+        self.class_hooks = {}           # class -> why its class-creation hook is not followed (methods are then undecided)
+        self._apply_class_hooks()
         self._summaries = {}
         self.record_classes = {}        # component names -> record classes constructed with them
         self.owned = {}                 # (class, field) -> private collaborator class constructed into that field
@@ -197,6 +199,70 @@ class Program:
         self.next_of = {}           # iter(S) term -> element, while a loop walks S through an iterator object
         self.funcrefs = {}          # key -> (class, definition, decorator level): what a decorator receives
         self.wrappers = {}          # key -> closure a user decorator returned for a definition
+
+    def _apply_class_hooks(self):
+        """`__init_subclass__` hooks that wrap methods of every subclass (`cls.update = deco(cls.__dict__['update'])`,
+        also via a local name or setattr with a constant name, under tests of whether the subclass defines the method):
+        the wrapper becomes the outermost decorator of the method in every subclass that defines it.  A hook that
+        writes to the class in any other way is not followed: the methods of its subclasses are then undecided."""
+        for m in list(self.modules.values()):
+            for B in list(m.classes.values()):
+                hook = B.methods.get("__init_subclass__")
+                if hook is None or not hook.args.args:
+                    continue
+                me = hook.args.args[0].arg
+                wraps, poison = [], None
+                for n in ast.walk(hook):
+                    target = None
+                    if isinstance(n, ast.Assign) and len(n.targets) == 1 and isinstance(n.targets[0], ast.Attribute) and \
+                            isinstance(n.targets[0].value, ast.Name) and n.targets[0].value.id == me:
+                        target, value = n.targets[0].attr, n.value
+                    elif isinstance(n, ast.Call) and isinstance(n.func, ast.Name) and n.func.id == "setattr" and n.args and \
+                            isinstance(n.args[0], ast.Name) and n.args[0].id == me:
+                        if len(n.args) == 3 and isinstance(n.args[1], ast.Constant) and isinstance(n.args[1].value, str):
+                            target, value = n.args[1].value, n.args[2]
+                        else:
+                            poison = f"setattr on the class with a computed name at {m.path}:{n.lineno}"
+                    elif isinstance(n, (ast.AugAssign, ast.Delete)) and any(
+                            isinstance(x, ast.Attribute) and isinstance(x.value, ast.Name) and x.value.id == me and
+                            isinstance(x.ctx, (ast.Store, ast.Del)) for x in ast.walk(n)):
+                        poison = f"class attribute rewritten at {m.path}:{n.lineno}"
+                    if target is None:
+                        continue
+                    if isinstance(value, ast.Call) and len(value.args) == 1 and not value.keywords and \
+                            isinstance(value.func, (ast.Name, ast.Attribute, ast.Call)):
+                        wraps.append((target, value.func, n.lineno))
+                    else:
+                        poison = f"{B.name}.__init_subclass__ rebinds {target} at {m.path}:{n.lineno}"
+                if not wraps and poison is None:
+                    continue
+                subs = [c for mod in self.modules.values() for c in mod.classes.values() if c is not B]
+                for S in subs:
+                    # bases are resolved: walk them
+                    seen, todo, is_sub = set(), list(S.bases), False
+                    while todo:
+                        b = todo.pop()
+                        if b is B:
+                            is_sub = True
+                            break
+                        if isinstance(b, ClassInfo) and b.qual not in seen:
+                            seen.add(b.qual)
+                            todo.extend(b.bases)
+                    if not is_sub:
+                        continue
+                    if poison is not None:
+                        self.class_hooks[S.qual] = poison
+                        continue
+                    for name, deco, line in wraps:
+                        fn = S.methods.get(name)
+                        if fn is None:
+                            continue
+                        d = copy.deepcopy(deco)
+                        for x in ast.walk(d):
+                            if hasattr(x, "lineno"):
+                                x.lineno = x.end_lineno = line
+                        d._module = m               # names in the hook are names of the module that defines it
+                        fn.decorator_list = [d] + list(fn.decorator_list)
 
     def _base_name(self, m, b):
         d = self.dotted_of(m, b)
@@ -1194,6 +1260,10 @@ class Summariser:
         self.depth, self.ids, self.stack = depth, ids or Counter(), stack
         self.fnstack = fnstack + (fn,)
         self.loops = loops
+        if cls is not None and prog.class_hooks:
+            for k in prog.mro(cls):
+                if k.qual in prog.class_hooks:
+                    raise Unsupported(f"methods of {k.name} are rewritten when the class is created: {prog.class_hooks[k.qual]}")
         self.env = {}
         self.fields = fields if fields is not None else {}
         self.facts = []
@@ -4007,7 +4077,7 @@ class Summariser:
         cache = self.prog.wrappers
         if key not in cache:
             d = user_decorators(m)[level - 1]
-            module = c.module if c is not None else self.prog.fn_module[id(m)]
+            module = getattr(d, "_module", None) or (c.module if c is not None else self.prog.fn_module[id(m)])
             where = f"{module.path}:{m.lineno}"
             inner = (key[0], m.name, m.lineno, level - 1)
             self.prog.funcrefs[inner] = (c, m, level - 1)
